@@ -6,18 +6,21 @@ invariant XG_curvature and the IEEE sign axioms); invariant XG_genuine: every st
 at the stored point; stored arrays are never written in place (history_not_aliased).
 """
 from props._mainbased import main_property, selector
-from units import kernels_unit
+from units import kernels_unit, bfgs_unit
 
 PID = "C18"
 
 
 def check(tier, seed):
     kn = kernels_unit.run_unit(tier)
+    bf = bfgs_unit.run_unit(tier)
     return main_property(
         PID, tier, seed, "proof",
         "construction-site clauses + deque invariant (quantified over a symbolic-length deque), UF domain, z3; "
         "extract_hess_inv_diag: result[i] == H[i,i] for a dense linear operator at n <= 3 (quick) / 6 (thorough).",
-        extra_reports=[(kn, selector(PID))],
+        extra_reports=[(kn, selector(PID)),
+                       # objective redefinitions: the pairs come from the curvature filter and from update_X_and_G
+                       (bf, lambda r: "make_X_and_G_respect_strong_wolfe" in r.name or "C18" in r.props)],
         extra_assumptions=["sign axioms of IEEE arithmetic without NaN: dot(v,v) >= 0; a,b >= 0 => a*b >= 0",
                            "restored (restart) elements: bit-exactness replaced by C06's real-arithmetic restore contract",
                            "chronological order of the stored points is not expressed (append-at-the-right / drop-at-the-"
